@@ -225,6 +225,13 @@ def check_c02(out, tier):
     k = SIZES[tier]
     run_and_judge(out, general_cases(rnd, 240 * k, "c02g", reports=False), ["C02"], mine)
     run_and_judge(out, general_cases(rnd, 80 * k, "c02e", reports=False, removeEmpty=False), ["C02"], mine)
+    wide = []
+    for i in range(24 * k):
+        T, thrs = gen.boundary_graph(rnd)
+        for j, thr in enumerate(thrs[:2]):
+            wide.append(gen.case("c02w%d_%d" % (i, j), T, thr=thr, inverse=rnd.random() < .4, keepLess=rnd.random() < .7))
+    run_and_judge(out, wide, ["C02"], mine, label="wide class, threshold exactly k/n")
+    run_and_judge(out, [gen.chain_case(rnd, "c02k%d" % i) for i in range(30 * k)], ["C02"], mine, label="removal cascades")
     pinned_cases(out, "C02", ["C02"], mine)
     return ("as C01, thresholds on the k/n boundaries {0, 1/3, 1/2, 51/100, 2/3, 1}; remove_empty_shapes on and off; "
             "target classes without instances")
@@ -254,6 +261,14 @@ def check_c04(out, tier):
     k = SIZES[tier]
     run_and_judge(out, general_cases(rnd, 220 * k, "c04g", ors=True), [], mine, crash_is_mine=True)
     run_and_judge(out, adversarial_cases(rnd, 120 * k, "c04a"), [], mine, crash_is_mine=True)
+    opts = general_cases(rnd, 140 * k, "c04o", ors=True)
+    for c in opts:
+        c["cfg"].update(minIri=rnd.random() < .5, examples=rnd.choice(["", "shape", "cons", "all"]),
+                        ignoreNs=rnd.choice([[], [], [M.RDF], [M.EX], [gen.EX2]]), cap=rnd.choice([0, 0, 1, 2]),
+                        format=rnd.choice(["shexc", "shexc", "shacl"]), comments=rnd.random() < .8)
+        if c["cfg"]["format"] == "shacl":
+            c["cfg"]["examples"] = c["cfg"]["examples"] if rnd.random() < .5 else ""
+    run_and_judge(out, opts, [], mine, crash_is_mine=True)
     pinned_cases(out, "C04", [], mine, crash_is_mine=True)
     extra_c04_calls(out, rnd, 40 * k)
     return ("general graphs x all target modes x OR configurations; adversarial mixes (IRI + blank values with / "
